@@ -332,6 +332,27 @@ def run_session(rnd, w, dumps, kinds, gen_cfg, nacts=14, max_gens=4, scenarios=N
     return obs, script, gens
 
 
+# Sessions_Val compares EVERYTHING a listing delivers; a check reports the deviations ITS statement pins and leaves the rest
+# to the check of the property that pins them (counted in extra.deviations_left_to_other_checks)
+_SEL = {'listing-ended-early', 'listing-has-extra-item', 'wrong-event', 'wrong-trace', 'wrong-log-record', 'wrong-sample',
+        'clean-listing-differs-from-reference', 'selection-differs-from-reference', 'listing-differs-from-reference'}
+SESSION_OWN = {'C06': _SEL, 'C12': _SEL, 'C13': _SEL | {'process-column'}, 'C14': {'process-column'},
+               'C15': _SEL | {'attribution'}, 'C19': {'wrong-name-table'}}
+
+
+def session_own(ctx, clause, kind):
+    cl = clause.partition('@')[0].partition(':')[0]
+    own = SESSION_OWN.get(ctx.prop)
+    if own is None or cl.startswith('raised') or cl.startswith('harness'):
+        return True
+    if ctx.prop == 'C15' and kind not in ('cs', ''):
+        return False
+    if cl in own:
+        return True
+    ctx.extra['deviations_left_to_other_checks'] = ctx.extra.get('deviations_left_to_other_checks', 0) + 1
+    return False
+
+
 def run_sessions(ctx, rnd, n, kinds, gen_dump, gen_cfg, tag, nacts=14, scenarios=None):
     """n seeded sessions validated by Sessions_Val; violations reported under ctx.prop. Returns stats."""
     obs, info = [], {}
@@ -375,6 +396,8 @@ def run_sessions(ctx, rnd, n, kinds, gen_dump, gen_cfg, tag, nacts=14, scenarios
                 cl += ':' + a['err'].split(':')[0]
         elif at.startswith('listing'):
             kind = [x for x in o['acts'] if x['op'] == 'open'][int(at[7:]) - 1]['kind']
+        if not session_own(ctx, clause, kind):
+            continue
         ctx.violation('%s/session/%s/%s' % (ctx.prop, cl, kind),
                       'session %s: %s at action %s; script: %s' % (oid, cl, at, ' ; '.join(script)[:1500]),
                       {'kind': 'session', 'clause': clause, 'script': script,
@@ -489,6 +512,8 @@ def replay_tlc_schedules(ctx, rnd, n, kinds_tla, dumpset, gen_dump, tag):
     ctx.traces += nv
     for oid, clause in rej:
         script, dumps, w = scripts[oid]
+        if not session_own(ctx, clause, ''):
+            continue
         ctx.violation('%s/tlc-schedule/%s' % (ctx.prop, clause.partition('@')[0]), 'schedule %s: %s; script: %s' % (oid, clause, ' ; '.join(script)[:1500]),
                       {'kind': 'session', 'clause': clause, 'script': script, 'files_hex': [d.blob.hex() for d in dumps],
                        'streams': [describe(w, d.stream) for d in dumps]})
